@@ -236,6 +236,24 @@ def process_fn(src: str, src_file: str, it: rustscan.Item, dirs: List[Directive]
     body_close_i = match_close(st, body_open_i)
     drops = info.drops
     n_edits0 = len(edits)
+    # payload lines may be guarded by the shape of the code: `?[text] clause` is kept only if `text` occurs in the
+    # body, `?![text] clause` only if it does not (contracts that must read both the repaired and the defective form of
+    # a function, so that a returning defect is reported instead of going undecided)
+    body_src = src[it.body_open:it.end]
+    resolved = []
+    for d in dirs:
+        if any(re.match(r'\s*\?!?\[', ln) for ln in d.payload):
+            pl = []
+            for ln in d.payload:
+                m = re.match(r'(\s*)\?(!?)\[([^\]]*)\](.*)$', ln)
+                if not m:
+                    pl.append(ln); continue
+                present = m.group(3) in body_src
+                if present != bool(m.group(2)):
+                    pl.append(m.group(1) + m.group(4))
+            d = Directive(d.kind, d.arg, pl, d.line)
+        resolved.append(d)
+    dirs = resolved
     # --- D2: async / .await
     n_await = 0
     await_tok_idx = []
@@ -251,6 +269,20 @@ def process_fn(src: str, src_file: str, it: rustscan.Item, dirs: List[Directive]
             await_tok_idx.append(i)
     if n_await:
         drops.append('D2 .await x%d' % n_await)
+    # --- D3 (visibility): `pub fn` -> `fn` on request.  Verus does not let the contract of a public function mention
+    #     private fields; visibility has no run-time meaning.
+    if any(d.kind == 'drop-pub' for d in dirs):
+        for i, t in enumerate(st):
+            if i >= body_open_i:
+                break
+            if t.kind == 'ident' and t.text == 'pub':
+                e_i = i
+                if st[i + 1].text == '(':
+                    e_i = match_close(st, i + 1)
+                e = st[e_i].end + (1 if src[st[e_i].end] == ' ' else 0)
+                edits.append(Edit(t.start, e, '', 'real', 'D3'))
+                drops.append('D3 pub')
+                break
     # --- D4: log::level!(..); statements
     i = body_open_i + 1
     while i < body_close_i:
